@@ -60,6 +60,16 @@ def _check_nextpow2(prog: Program) -> Tuple[bool, str]:
         if not isinstance(r.value, ast.Name):
             return False, f"returns non-name {unparse(r.value)}"
         p = r.value.id
+        # form: `while p <= n: p *= 2` followed by `return p` - leaving the loop means p > n
+        blk = f.node.body
+        if r in blk and blk.index(r) > 0 and isinstance(blk[blk.index(r) - 1], ast.While):
+            w = blk[blk.index(r) - 1]
+            t = w.test
+            exits_gt = isinstance(t, ast.Compare) and len(t.ops) == 1 and isinstance(t.left, ast.Name) and isinstance(t.comparators[0], ast.Name) and (
+                (t.left.id == p and t.comparators[0].id == n and isinstance(t.ops[0], ast.LtE)) or
+                (t.left.id == n and t.comparators[0].id == p and isinstance(t.ops[0], ast.GtE)))
+            if exits_gt and not w.orelse and not any(isinstance(x, (ast.Break, ast.Return)) for x in ast.walk(w)):
+                continue
         # walk up: must sit in the true branch of `if p > n` / `if p >= n` / `if n < p`
         node, child = parent_of(r), r
         ok = False
